@@ -16,7 +16,7 @@ fi
 if [ "$what" = fsgate ] || [ "$what" = all ]; then
   mkdir -p build
   if [ -f vf/engines/fsgate.c ]; then
-    gcc -shared -fPIC -O2 -Wall -o build/fsgate.so vf/engines/fsgate.c -ldl -lpthread || rc=1
+    gcc -shared -fPIC -O2 -o build/fsgate.so vf/engines/fsgate.c -ldl -lpthread || rc=1
   fi
 fi
 exit $rc
